@@ -144,6 +144,13 @@ def _and(tr, a, kw):
     return f"(Jnp.logicalAnd {x} {y})", B
 
 
+def _not(tr, a, kw):
+    (x, tx), = a
+    if tx != B or kw:
+        raise Untranslatable("logical_not of a non-boolean")
+    return f"(!{x})", B
+
+
 def _searchsorted(tr, a, kw):
     (x, tx), (v, tv) = a
     if tx != V or tv != S:
@@ -258,6 +265,7 @@ DIST_METHODS = {
 LIB = {
     "jnp.where": _where,
     "jnp.logical_and": _and,
+    "jnp.logical_not": _not,
     "jnp.searchsorted": _searchsorted,
     "jnp.clip": _clip,
     "jax.nn.softmax": _vec1("Jnp.softmax"),
@@ -927,6 +935,11 @@ class Tr:
             if isinstance(ft, tuple) and ft[0] == "F":
                 argc = [self.es(a)[0] for a in n.args]
                 return "(" + " ".join([f] + argc) + ")", ft[-1]
+        # a simple private helper (module-level `_f(..)` or `self._f(..)` with a single return): translate its body in place
+        import inline
+        ex = inline.expand_call(n, getattr(self, "helpers", {}))
+        if ex is not None:
+            return self._e(ex)
         raise Untranslatable(f"call {fn} in {self.tgt.path}")
 
     def config_fn_call(self, n: ast.Call, bound):
@@ -1243,8 +1256,12 @@ def translate_target(repo, tgt: Target, structs) -> tuple[str, Tr]:
     src = open(os.path.join(repo, tgt.file)).read()
     tree = ast.parse(src)
     fn = find_def(tree, tgt.path)
+    import inline
+    fn = inline.normalise(fn)
     tr = Tr(tgt, structs)
     tr.fn_node = fn
+    import inline
+    tr.helpers = inline.helpers_of(tree, tgt.path.split(".")[0] if "." in tgt.path else None)
     tr.cfg_fns = resolve_config(tree, tgt)
     pyargs = [a.arg for a in fn.args.args + fn.args.kwonlyargs]
     for flag, val in tgt.static.items():
